@@ -25,6 +25,10 @@ for sc in ('', 'static', 'extern', '_Thread_local', 'static _Thread_local', 'ext
     for scope in ('file', 'block', 'nested'):
         for init in (False, True):
             OBJ_SYMS.append(('obj', sc, scope, init, None))
+# a block two levels below the function body, WITHOUT a local that hides the file-scope declaration (seeded round 11: the visible prior
+# declaration was searched in the directly enclosing scope only); declarations with linkage only, to keep the alphabet small
+for sc in ('extern', 'extern _Thread_local'):
+    OBJ_SYMS.append(('obj', sc, 'inner', False, None))
 OBJ_SYMS += [('obj', '', 'file', True, 'nm'), ('obj', 'extern', 'file', False, 'nm'), ('obj', 'static', 'file', False, 'nm')]
 
 FUN_SYMS = []
@@ -33,6 +37,8 @@ for sc in ('', 'static', 'extern', 'inline', 'extern inline', 'static inline'):
     FUN_SYMS.append(('fun', sc, 'file', True, None))
 for sc in ('', 'extern', 'static'):
     FUN_SYMS.append(('fun', sc, 'block', False, None))
+for sc in ('', 'extern'):
+    FUN_SYMS.append(('fun', sc, 'inner', False, None))
 FUN_SYMS += [('fun', '', 'file', True, 'fnm'), ('fun', 'extern', 'file', False, 'fnm')]
 
 
@@ -49,6 +55,12 @@ def render(hist, kind):
         haslink = (k == 'fun') or ('extern' in sc)
         if scope == 'file':
             out.append(d)
+        elif scope == 'inner':
+            g += 1
+            if k == 'obj':
+                out.append('void *g%d(int n) { while (n) { if (n > 1) { %s return &x; } n--; } return 0; }' % (g, d))
+            else:
+                out.append('int g%d(int n) { while (n) { if (n > 1) { %s return f(); } n--; } return 0; }' % (g, d))
         elif scope == 'block':
             g += 1
             if haslink and k == 'obj':
@@ -98,6 +110,8 @@ def linkref(hist, kind, stats=None):
     for sym in hist:
         k, sc, scope, init, asm = sym
         note(st, sym)
+        if scope == 'inner':
+            scope = 'block'     # a deeper block without a hiding local: the same rules as a block directly in the function body
         thread = '_Thread_local' in sc
         static = 'static' in sc
         extern = 'extern' in sc
